@@ -44,3 +44,16 @@ pub unsafe fn swap_nonoverlapping_stub<T>(x: *mut T, y: *mut T, count: usize) {
         i += 1;
     }
 }
+
+/// `core::panicking::assert_failed` (the failure path of `assert_eq!` / `assert_ne!`): the real one formats both
+/// operands with `Debug` before panicking, which CBMC executes symbolically at every `assert_eq!` in the code under
+/// test. The stub panics at once: which assertion failed and why is irrelevant to a "must stop" harness.
+#[cfg(kani)]
+pub fn assert_failed_stub<T: core::fmt::Debug + ?Sized, U: core::fmt::Debug + ?Sized>(
+    _kind: core::panicking::AssertKind,
+    _left: &T,
+    _right: &U,
+    _args: Option<core::fmt::Arguments<'_>>,
+) -> ! {
+    panic!("assert_eq!/assert_ne! failed")
+}
